@@ -6,7 +6,18 @@ import sys
 sys.path.insert(0, os.path.join(HERE, "tools"))
 import props  # noqa: E402
 TECH = "Coq 8.16 theorems (induction over streams / layouts / event lists) + per-run kernel-decided table theorems on the regenerated Tables.v + model/implementation correspondence evaluated by vm_compute"
-CLAIMED = {k: (v["text"], "6 (%s)" % k, TECH) for k, v in props.SPEC.items()}
+SRC_TECH = {"sock": "SocketWrapper", "reader": "RTCMReader", "msg": "RTCMMessage (non-recursive methods)"}
+
+
+def tech(v):
+    t = TECH
+    ties = (["the CRC kernels / serialize / identity (MiniPy)"] if v.get("src") else []) + [SRC_TECH[w] + " (PyO)" for w in v.get("srco", ())]
+    if ties:
+        t += " + per-run source theorems: the current text of " + ", ".join(ties) + " is translated (fail-closed) into a deep embedding and its interpretation proved equal to the model for all inputs"
+    return t
+
+
+CLAIMED = {k: (v["text"], "6 (%s)" % k, tech(v)) for k, v in props.SPEC.items()}
 NOT_YET = {}
 def main():
     props = [json.loads(l)["id"] for l in open(os.path.join(HERE, "properties.jsonl"))]
@@ -38,8 +49,6 @@ def main():
         "not_applicable": na,
         "notes": "All checks rebuild Tables.v from /repo's working tree on every run. Fixed defects are listed in KNOWN_FINDINGS (fixed: lines suppress nothing).",
     }
-    if not na:
-        del man["not_applicable"]
     json.dump(man, open(os.path.join(HERE, "MANIFEST.json"), "w"), indent=1)
 if __name__ == "__main__":
     main()
